@@ -140,6 +140,8 @@ def parse(path):
                 flush_sec(); cur.ret = d.split()[1]
             elif d == 'nocanary':
                 flush_sec(); cur.canary = False
+            elif d == 'orsplit':
+                flush_sec(); cur.orsplit = True
             elif d == 'contract':
                 flush_sec(); sec = ('contract',)
             elif d.startswith('at '):
@@ -209,6 +211,9 @@ def build_item(repo, unit, ex, canary, log):
     urules = ex.unit_rules if getattr(ex, 'stub', False) else unit.rules_for(ex)
     rules = [(r[0], r[1], r[2], None) for r in R0_PATTERNS] + ex.rules + urules  # item-level rules take priority
     text = rscan.apply_rules(text, rules, log, where)
+    if getattr(ex, 'orsplit', False):
+        text = rscan.split_or_arms(text, log, where)
+        text = rscan.apply_rules(text, [(r[0], r[1], r[2], None) for r in rules], log, where)
     rewritten = text
     inserts = []   # (offset, order, id, text)
     seq = 0
